@@ -20,7 +20,9 @@ RULE = ('random sequential, deep and time-travel programs with inputs, word size
         'build is run first; if its committed timeline carries no fault flag the unchecked build of the same source must '
         'produce the identical timeline; non-trivial = the checked run executed at least one index, division or length '
         'guard or a protected return besides the function-entry guards; distinct by hash of (source, args, word); a third of the pairs and all memory templates '
-        '(arrays live across loops, early exits and defeat) are compared again at the smallest stacks at which the checked build explores no fault on any timeline')
+        '(arrays live across loops, early exits and defeat) are compared again at the smallest stacks at which the checked build explores no fault on any timeline; '
+        'exit-shape programs (terminal calls included) and guarded constant out-of-range accesses are compiled in both builds: a program whose checked '
+        'build runs fault-free must also have an unchecked build')
 ASSUMPTIONS = common.ISA_ASSUMPTIONS[:3]
 REQUIRED_HIDC_FUNCTIONS = ['codegen/generator:CodeGen.check_index', 'codegen/generator:CodeGen.arith_op_reg_arg']     # M-COV: deciding code never entered => inconclusive
 MIN_NONTRIVIAL = {'quick': 200, 'thorough': 2000}
@@ -98,6 +100,30 @@ def tight(res, lc, lu, args, G, case):
     return True
 
 
+# accesses with a constant index that is out of range for a constant length, each behind a test that is never true:
+# the checked build accepts them (the guard would fire if they ran); the unchecked build has to accept them too
+GUARDED = '''
+const string[] days = ["Mon", "Tue", "Wed"];
+int[] gq = [7, 8];
+empty @is_you(int n) {
+    int[] a = [1, 2, 3];
+    if (a.length > 3) { write(a[3]); }
+    if (n > 100) { write(a[5]); a[7] = 1; a[3] += 2; }
+    byte[] b = ['x'];
+    if (b.length > 1) { write(b[1]); b[1] = 'y'; }
+    bool[] f = [true, false];
+    if (n > 100) { if (f[2]) { write('f'); } f[9] = true; }
+    string s = "abc";
+    if (s.length > 5) { write(s[5]); }
+    if (n > 100) { write("abc"[3]); write(gq[2]); gq[2] = 1; write([1, 2][2]); }
+    write(days.length);
+    if (days.length > 3) { writeln(days[3]); }
+    for (int i = 0; i < 2; i += 1) { if (i > 5) { write(a[4]); } }
+    writeln(" ok");
+}
+'''
+
+
 def run_with_guards(lines, args):
     prog = assemble(lines, args)
     g = GuardMonitor()
@@ -149,6 +175,16 @@ def run_shard(spec):
     if spec['kind'] == 'templates':
         work = [(tag, src, args) for i, (tag, src, args) in enumerate(memprogs.cases(spec['seed'], 0)) if i % spec['parts'] == spec['part']]
         work = [(tag, src, args, w, True) for tag, src, args in work for w in spec['words']]
+        if spec['part'] == 0:
+            work += [('guarded-constant-index', GUARDED, [n], w, False) for n in ('3', '200') for w in (2, 3)]
+        # function bodies built from exit shapes (terminal calls all_is_win / all_is_broken included), enumerated and random
+        from ..gen import exits
+        for k, (tag, prog, ret) in enumerate(exits.loop_exit_programs()):
+            if k % (spec['parts'] * 3) == spec['part']:
+                work += [(tag, A.render(prog), [x], 2, False) for x in ('0', '3')]
+        for i in range(6):
+            prog, flavor, ret = exits.ExitGen(spec['seed'] * 977 + spec['part'] * 31 + i).program()
+            work += [(f'exits:{i}', A.render(prog), [x], 2, False) for x in ('1', '2', '5')]
     else:
         work = []
         for i in range(spec['count']):
@@ -173,12 +209,29 @@ def run_pairs(res, work):
         case = diff.case_dict(src, args, word, diff.GENEROUS_STACK, gen=tag)
         try:
             lc = env.compile_src(src, word=word, stack=diff.GENEROUS_STACK, unchecked=False)
-            lu = env.compile_src(src, word=word, stack=diff.GENEROUS_STACK, unchecked=True)
         except CompilerError as e:
             runner.count(res, 'rejected')
             continue
         except Exception as e:  # noqa
             runner.fail(res, 'M-EXC', f'{type(e).__name__}: {e}', case)
+            continue
+        try:
+            lu = env.compile_src(src, word=word, stack=diff.GENEROUS_STACK, unchecked=True)
+        except CompilerError as e:
+            # no unchecked build exists: a violation if the checked build runs fault-free
+            try:
+                oc, _ = run_with_guards(lc, args)
+            except Exception as e2:  # noqa
+                runner.fail(res, 'M-ASM', str(e2), case)
+                continue
+            if oc.klass not in ('TIMEOUT', 'HALT', 'TRAP') and not any(f in FAULT_FLAGS for f in oc.flags):
+                runner.fail(res, 'M-DIFF', f'the checked build compiles and runs fault-free ({oc.klass} {oc.out[:40]!r}) but --unchecked rejects the program: {e}', case,
+                            expected=oc.brief(), observed=f'{type(e).__name__}: {e}')
+            else:
+                runner.count(res, 'unchecked_rejected_checked_faulted')
+            continue
+        except Exception as e:  # noqa
+            runner.fail(res, 'M-EXC', f'--unchecked: {type(e).__name__}: {e}', case)
             continue
         try:
             oc, gc = run_with_guards(lc, args)
